@@ -13,10 +13,16 @@ const P: &str = "C08";
 macro_rules! chk {
     ($rep:expr, $cfg:expr, $grp:expr, $case:expr, $prim:expr, $class:expr, $got:expr, $want:expr, $inputs:expr) => {{
         $rep.count("per_primitive", $prim);
-        if $got != $want {
-            $rep.violation(&format!("{}|{}|{}|value", P, $prim, $class),
-                format!("{}: got {:?}, expected {:?}, inputs {}", $prim, $got, $want, $inputs),
-                replay_json($cfg, $grp, $case, json!({"primitive": $prim, "inputs": $inputs})));
+        // the expression usually contains the library call itself: a panic on an in-domain input is a violation, not a harness error
+        match lib(|| $got) {
+            Ok(got) => { let want = $want; if got != want {
+                $rep.violation(&format!("{}|{}|{}|value", P, $prim, $class),
+                    format!("{}: got {:?}, expected {:?}, inputs {}", $prim, got, want, $inputs),
+                    replay_json($cfg, $grp, $case, json!({"primitive": $prim, "inputs": $inputs})));
+            } }
+            Err(p) => $rep.violation(&format!("{}|{}|{}|panic", P, $prim, $class),
+                format!("{}: panicked: {} ; inputs {}", $prim, p.0, $inputs),
+                replay_json($cfg, $grp, $case, json!({"primitive": $prim, "inputs": $inputs}))),
         }
     }};
 }
@@ -420,11 +426,20 @@ fn multi_word(cfg: &Cfg, grp: &str, case: u64, rep: &mut Report, rng: &mut Rng) 
         if call!(rep, cfg, grp, case, "divide_uint_mod_inplace", qcls, minp, hu::divide_uint_mod_inplace(&mut numer, &m, &mut quot)).is_some() {
             chk!(rep, cfg, grp, case, "divide_uint_mod_inplace", qcls, (quot.clone(), numer[0]), (wq.to_limbs(n), wr.low_u64()), minp);
         }
-        let len = rng.range(1, 16) as usize;
-        let v1: Vec<u64> = (0..len).map(|_| match rng.below(4) { 0 => q - 1, 1 => 0, _ => rng.below(q) }).collect();
-        let v2: Vec<u64> = (0..len).map(|_| match rng.below(4) { 0 => q - 1, 1 => 1, _ => rng.below(q) }).collect();
+        // documented domain ("follows the condition of barrett_reduce_128"): the exact sum of products fits 128 bits, i.e.
+        // len * (q-1)^2 < 2^128. Long vectors (hundreds / thousands of terms) are in-domain for moduli below ~59 bits.
+        let cap: u128 = { let sq = (q as u128 - 1) * (q as u128 - 1); if sq == 0 { 1 << 20 } else { (u128::MAX / sq).min(1 << 20) } };
+        let (len, lcls) = match rng.below(8) {
+            0 if cap >= 17 => (rng.range(17, (cap as u64).min(300)) as usize, "len=17..300"),
+            1 if cap >= 257 => (rng.range(257, (cap as u64).min(4096)) as usize, "len=257..4096"),
+            _ => (rng.range(1, 16.min(cap as u64)) as usize, "len<=16"),
+        };
+        let all_max = rng.chance(1, 6);
+        let v1: Vec<u64> = (0..len).map(|_| if all_max { q - 1 } else { match rng.below(4) { 0 => q - 1, 1 => 0, _ => rng.below(q) } }).collect();
+        let v2: Vec<u64> = (0..len).map(|_| if all_max { q - 1 } else { match rng.below(4) { 0 => q - 1, 1 => 1, _ => rng.below(q) } }).collect();
         let mut acc = 0u128; for i in 0..len { acc = (acc + v1[i] as u128 * v2[i] as u128) % q as u128; }
-        chk!(rep, cfg, grp, case, "dot_product_mod", "len<=16", hu::dot_product_mod(&v1, &v2, &m), acc as u64, format!("q={} v1={:?} v2={:?}", q, v1, v2));
+        let dinp = if len <= 16 { format!("q={} v1={:?} v2={:?}", q, v1, v2) } else { format!("q={} len={} all_max={} v1[..4]={:?} v2[..4]={:?}", q, len, all_max, &v1[..4], &v2[..4]) };
+        chk!(rep, cfg, grp, case, "dot_product_mod", lcls, hu::dot_product_mod(&v1, &v2, &m), acc as u64, dinp);
     }
     // ---- naf
     {
